@@ -260,6 +260,12 @@ def flag_reach(f, starts, stop):
     return {b for b, _ in seen}
 
 
+def _place_op(discr_origin):
+    """operand naming the place whose discriminant a `discr` origin reads (to chase where the enum came from)"""
+    m = re.match(r"^\(?\*?_(\d+)", discr_origin["place"])
+    return {"cp": {"l": int(m.group(1))}} if m else {"c": 1}
+
+
 def diverges(f, b):
     return not (f.reachable(b) & set(f.returns()))
 
@@ -611,7 +617,9 @@ def one(rep, c, cfg):
                         continue
                     variant, is_eq = sv
                     how = f"`{'==' if is_eq else '!='} CallbackCode::{variant}` (operand read from the syntax tree)"
-                    if variant == "Exit" and is_eq == positive:
+                    if is_eq != positive:
+                        continue  # the operator at that line is not the call we are looking at
+                    if variant == "Exit" and positive:
                         decision = (b, tt, {"Yield/Wait": ft})
                     elif variant == "Exit":
                         decision = (b, ft, {"Yield/Wait": tt})
@@ -716,8 +724,13 @@ def one(rep, c, cfg):
             rep.ob("R22.3", f"block_on: returns only after Exit {tag}",
                    all(r in f.edge_region(b, et) for r in f.returns()) if et is not None else False,
                    "block_on can return while the task is still running", f.loc(b))
-            for v, t, want, never in (("Yield", yt, "WaitableSet::poll", "WaitableSet::wait"),
-                                      ("Wait", wt, "WaitableSet::wait", "WaitableSet::poll")):
+            # a Yield may be answered before any waitable exists: skipping the poll is allowed exactly on the
+            # `None` edge of a test of the (own) Option<WaitableSet>
+            absent = [variant_target(m2, "None") for sb, m2, o2 in discr_switches(f, ty_sub="Option<")
+                      if "WaitableSet" in o2["ty"] and variant_target(m2, "None") is not None
+                      and ".waitable_set" in chase(f, _place_op(o2))[0]]
+            for v, t, want, never, skip in (("Yield", yt, "WaitableSet::poll", "WaitableSet::wait", absent),
+                                            ("Wait", wt, "WaitableSet::wait", "WaitableSet::poll", [])):
                 if t is None:
                     rep.ob("R22.3", f"block_on: {v} arm exists {tag}", False, "", f.loc(b))
                     continue
@@ -725,7 +738,8 @@ def one(rep, c, cfg):
                 w = calls_in(f, reg, want)
                 rep.ob("R22.3", f"block_on: {v} => {want.split('::')[1]}s the task's own set and calls back with that event {tag}",
                        len(w) >= 1 and not calls_in(f, reg, never) and
-                       f.all_paths_pass(t, [cb.bb], [x.bb for x in w]) and not (f.reachable(t, avoid=[cb.bb]) & set(f.returns()))
+                       f.all_paths_pass(t, [cb.bb], [x.bb for x in w] + skip) and
+                       not (f.reachable(t, avoid=[cb.bb]) & set(f.returns()))
                        and all(own_set(f, x.args[0]) for x in w),
                        f"{len(w)} {want} call(s) in the arm; {len(calls_in(f, reg, never))} {never} call(s)", f.loc(b))
         # the event passed to the callback: (EVENT_NONE,0,0) first, afterwards what poll/wait returned
@@ -735,20 +749,31 @@ def one(rep, c, cfg):
             ev_locals.add(o.get("local") if o.get("kind") == "place" else None)
         ok = len(ev_locals) == 1 and None not in ev_locals
         kinds = []
-        if ok:
-            for b, i, kind, payload in f.defs.get(next(iter(ev_locals)), []):
-                if kind == "assign" and payload["k"] == "agg" and "tuple" in payload and \
-                        [f.origin(x).get("v") for x in payload["ops"]] == [EV["EVENT_NONE"], 0, 0]:
-                    kinds.append("none")
-                elif kind == "assign" and payload["k"] == "use" and \
-                        is_call(f.origin(payload["o"]), ["WaitableSet::poll", "WaitableSet::wait"]):
-                    kinds.append("set")
-                elif kind == "call" and mir.Call(b, payload).matches(["WaitableSet::poll", "WaitableSet::wait"]):
-                    kinds.append("set")
+
+        def sources(local, depth=0):
+            for b, i, kind, payload in f.defs.get(local, []):
+                if kind == "partial":
+                    kinds.append("other")
+                elif kind == "call":
+                    kinds.append("set" if mir.Call(b, payload).matches(["WaitableSet::poll", "WaitableSet::wait"])
+                                 else "other")
+                elif payload["k"] == "agg" and "tuple" in payload:
+                    kinds.append("none" if [f.origin(x).get("v") for x in payload["ops"]] == [EV["EVENT_NONE"], 0, 0]
+                                 else "other")
+                elif payload["k"] == "use":
+                    o = f.origin(payload["o"])
+                    if is_call(o, ["WaitableSet::poll", "WaitableSet::wait"]) and not o.get("proj"):
+                        kinds.append("set")
+                    elif o.get("kind") == "place" and "local" in o and not o.get("proj") and depth < 4:
+                        sources(o["local"], depth + 1)
+                    else:
+                        kinds.append("other")
                 else:
                     kinds.append("other")
+        if ok:
+            sources(next(iter(ev_locals)))
             order = [f.origin(a).get("proj") for a in cb.args[1:]]
-            ok = "other" not in kinds and kinds.count("none") == 1 and kinds.count("set") >= 2 and \
+            ok = "other" not in kinds and kinds.count("none") >= 1 and kinds.count("set") >= 2 and \
                 order == [[".0"], [".1"], [".2"]]
         rep.ob("R22.3", f"block_on: the callback receives (EVENT_NONE,0,0) first and then exactly the polled/waited event {tag}",
                ok, f"definitions of the event triple: {kinds}", f.loc(cb.bb))
@@ -1005,6 +1030,8 @@ def one(rep, c, cfg):
             rep.ob("R22.8", f"executor ({where}): waitable_set is unwrapped only where the set must exist {tag}",
                    bool(why), "the Option<WaitableSet> is None until the first waitable is registered: this unwrap "
                    "traps for a task that has not registered any", f.loc(call.bb))
+        rep.floor("R22.8", f"unwraps of the waitable set in the executor {tag}", n, 3)
+        n_exec = n
         cb = g.one_call("TaskState::callback")
         for call in set_unwraps(g):
             n += 1
@@ -1018,17 +1045,18 @@ def one(rep, c, cfg):
                    "the executor answers Yield also when remaining_work() = false and no waitable was ever registered "
                    "(e.g. block_on(async { yield_async().await })): waitable_set is still None and this unwrap traps",
                    g.loc(call.bb))
-        rep.floor("R22.8", f"unwraps of the waitable set in executor and block_on {tag}", n, 5)
+        rep.floor("R22.8", f"unwraps of the waitable set in block_on {tag}", n - n_exec, 1)
         # the set, once created, is never taken away (so remaining_work() = true implies it exists, with C18 R18.4)
         m = 0
         for h in c.fns.values():
             for call in h.calls(re.compile(r"as core::ops::DerefMut>::deref_mut$")):
                 if any("Option<rt::async_support::waitable_set::WaitableSet>" in t for t in call.arg_types):
                     m += 1
-                    rep.ob("R22.8", f"mutable access to waitable_set in {short(h)} {tag}",
-                           h.npath.endswith("SharedTaskState::add_waitable") and
-                           bool(h.calls("Option::get_or_insert_with")) and
-                           not h.calls(["Option::take", "Option::replace", "Option::insert"]),
+                    users = [x for x in h.calls(["Option::get_or_insert_with", "Option::get_or_insert"])
+                             if same_call(root(h, x.args[0], []), call)]
+                    rep.ob("R22.8", f"mutable access to waitable_set in {short(h)} only creates the set {tag}",
+                           len(users) == 1 and
+                           not h.calls(["Option::take", "Option::replace", "Option::insert", "mem::take", "mem::replace"]),
                            "the waitable set can be removed or replaced while waitables are registered", h.loc(call.bb))
         rep.floor("R22.8", f"mutable accesses to waitable_set {tag}", m, 1)
     rep.guard("R22.8", f"set-presence {tag}", r8)
